@@ -9,6 +9,12 @@ TRUST = ("rustc's MIR construction, trait resolution and const evaluation (night
          "necessary conditions only: a tree can satisfy every rule and still compute a wrong value.")
 
 CLAIMED = {
+ "C08": dict(technique="constant-argument and dominance rule for Linear values + per-outcome value lineage of Scale::scale + formula shape of linear_scale / scale_to_servings + field-to-field move lineage of every scaled structure",
+             text="Decides which values can be Linear (only ingredient, non-text, non-locked quantities), that Fixed and failed values pass through scale() untouched and default_scale returns the written value, that number / range start / range end are each multiplied by the factor and the servings factor is target / first declared servings, that everything scaling must not touch is a move of the same-named input field and outcome vectors line up with their components, that cookware is never fitted, and that the declared servings order is preserved. That fitting preserves the amount is C09/C12 material; finiteness is not decided.",
+             ref="DESIGN.md §5 C08"),
+ "C19": dict(technique="kind / field lineage of the FFI mirror on the MIR of the bindings crate (aggregate field sources, push/extend receivers by variable, merge-arm operand pairing)",
+             text="Decides that reference kinds, indices, names, amounts, units and notes of the simplified recipe are taken from the same-kind / same-named parts of the core recipe, that dereferencing uses the same-kind vector with the given index, that grouping keys carry the value's own variant, that merging looks the bucket up by the incoming key and adds incoming into stored field by field, and that combine_ingredients is the selection over all indices folding each once. Numerical sums and map order are not decided.",
+             ref="DESIGN.md §5 C19"),
  "C07": dict(technique="catalogue inventory of diagnostic constructions + forward def-use to a sink + stage/severity constants + shape of the parse-error short circuit and of the validity predicate",
              text="Weak: decides that no catalogued check was deleted or downgraded (per-module floors), that every constructed diagnostic reaches a sink with the matching severity and the stage of its module, that a parse-stage error returns no output and keeps only parse diagnostics while other paths keep the output, that validity is has_output and no errors, and that parsed fractions pass the zero-denominator rejection. It does not decide that a check fires on the right condition, that well-formed recipes are diagnostic-free, or where labels point.",
              ref="DESIGN.md §5 C07"),
